@@ -21,7 +21,8 @@ KINDS = ["noise", "noise", "pureX", "pureY", "pureL", "pureR", "zeros", "mixed_s
 def dp_case(draw):
     spec = draw(G.signal_spec(classes=["DualPolarizationSignal"], nmin=1, nmax=24, nchan_max=5, max_trailing=2, data_kinds=("noise",)))
     return {"sig": spec, "kind": draw(st.sampled_from(KINDS)), "scale": draw(st.sampled_from([1.0, 1.0, 1e-3, 1e3, 1e-10, 1e8])),
-            "dask": draw(st.integers(0, 5)) == 0}
+            "dask": draw(st.integers(0, 5)) == 0, "chunking": draw(st.sampled_from(["half", "ragged", "ragged", "ones"])),
+            "prep": draw(st.sampled_from(["none", "none", "none", "pickle", "pickle", "deepcopy", "copy"]))}
 
 
 def mk(case):
@@ -86,7 +87,23 @@ def run_dp(case, stt):
     import dask.array as da
 
     spec, data, X, Y = mk(case)
-    z = G.build(spec, data=data.copy(), chunks=(None if not case["dask"] else tuple(max(1, s // 2) for s in data.shape)))
+    chunk_of = {"half": lambda n: max(1, n // 2), "ragged": lambda n: max(1, (2 * n + 2) // 3), "ones": lambda n: 1}[case.get("chunking", "half")]
+    chunks = None
+    if case["dask"]:
+        chunks = tuple(chunk_of(n) for n in data.shape)
+        if case.get("chunking") == "ones":
+            # single-sample blocks along time (short signals) and across the polarisation axis; halves elsewhere (the graph stays small)
+            chunks = tuple(1 if ax == 2 or (ax == 0 and n <= 8) else max(1, n // 2) for ax, n in enumerate(data.shape))
+    z = G.build(spec, data=data.copy(), chunks=chunks)
+    prep = case.get("prep", "none")
+    if prep != "none":
+        # the signal reached the caller through pickle (another process) / deepcopy / copy: the same signal
+        import copy
+        import pickle
+
+        with lib(prep + " of the signal"):
+            z = {"pickle": lambda q: pickle.loads(pickle.dumps(q)), "deepcopy": copy.deepcopy, "copy": copy.copy}[prep](z)
+        stt.label("input_via_" + prep)
     rt = 4e-6 if spec["dtype"] == "c8" else 1e-13
     L, R = (X - 1j * Y) / np.sqrt(2), (X + 1j * Y) / np.sqrt(2)
     power = np.abs(X) ** 2 + np.abs(Y) ** 2
@@ -105,6 +122,17 @@ def run_dp(case, stt):
         same_start(s, z, w + ": ")
         check(O.hz(s.sample_rate) == O.hz(z.sample_rate) and O.hz(s.center_freq) == O.hz(z.center_freq) and s.freq_align == z.freq_align
               and s.meta == z.meta, "{}: metadata not carried", w)
+    for s, w, shp in ((lin, "to_linear", data.shape), (cir, "to_circular", data.shape), (back, "round trip", data.shape), (inten, "to_intensity", data.shape),
+                      (st_, "to_stokes", data.shape[:2] + (4,) + data.shape[3:])):
+        # what the (possibly lazy) result says about itself is what it holds: shape, length, and slices counted from the end
+        check(tuple(s.shape) == tuple(shp) and len(s) == shp[0], "{}: shape {} / len {} for a result of shape {}", w, tuple(s.shape), len(s), tuple(shp))
+        full = arr(s)
+        check(full.shape == tuple(shp), "{}: the computed result has shape {}, the signal says {}", w, full.shape, tuple(s.shape))
+        if shp[0] >= 1 and not (case["dask"] and w in ("round trip", "to_" + spec["pol"])):
+            with lib(w + " result sliced from the end"):
+                tail, lastchan = s[-2:], s[:, -1:]
+            check(bits_equal(np.asarray(tail.data), full[-2:]), "{}: result[-2:] is not the last samples of the result (got shape {})", w, tuple(tail.shape))
+            check(bits_equal(np.asarray(lastchan.data), full[:, -1:]), "{}: result[:, -1:] is not the last channel of the result", w)
     check(type(lin) is type(z) and lin.pol_type == "linear", "to_linear gives {} / {}", type(lin).__name__, lin.pol_type)
     check(type(cir) is type(z) and cir.pol_type == "circular", "to_circular gives {} / {}", type(cir).__name__, cir.pol_type)
     check(type(st_) is pb.FullStokesSignal and type(inten) is pb.IntensitySignal, "to_stokes/to_intensity types {} {}", type(st_).__name__, type(inten).__name__)
@@ -184,7 +212,7 @@ def run_dp(case, stt):
     stt.label("kind_" + kdn)
     stt.label("basis_" + spec["pol"])
     stt.label("dtype_" + spec["dtype"])
-    stt.label("dask" if case["dask"] else "numpy")
+    stt.label("dask_" + case.get("chunking", "half") if case["dask"] else "numpy")
     stt.label("trailing_%d" % (len(spec["sshape"]) - 2))
     if len(spec["sshape"]) > 2:
         stt.label("trailing_last_%d" % spec["sshape"][-1])
